@@ -17,11 +17,129 @@ import re
 _ADDR = re.compile(r" at 0x[0-9a-fA-F]+")
 _pa = None  # the pytestarch package, imported lazily by init()
 _ModuleNameFilter = None
+_lib_prefix = None  # directory of the library under test (frames below it are abort points)
+
+
+_real_id = id
+
+
+class IdSeam:
+    """F13 seam: object identity.  Where the allocator places an object - and therefore whether a
+    new object gets the id() of a dead one - is not reproducible across processes, so the
+    simulator owns it: builtins.id is wrapped; evaluables, rule objects and the library objects
+    they hold (two attribute hops) report a simulated id = (type slot), and a slot freed by the
+    plan's `drop` step is handed to the next object of that type.  Everything else keeps its
+    real id.  Simulated ids are < 2**16, below any real address, so ids stay unique among
+    live objects."""
+
+    def __init__(self):
+        self.reset()
+
+    def reset(self):
+        self.map = {}  # real id -> simulated id
+        self.free = {}  # type name -> sorted free slots
+        self.next = {}  # type name -> next never-used slot
+        self.types = []  # type names in order of first registration
+        self.roots = {}  # real id of a registered root -> [(object, type name, slot)]
+        self.reused = 0
+
+    def sim_id(self, obj):
+        r = _real_id(obj)
+        return self.map.get(r, r)
+
+    @staticmethod
+    def _reachable(root):
+        out, frontier = [root], [root]
+        seen = {_real_id(root)}
+        for _ in range(2):
+            nxt = []
+            for o in frontier:
+                d = getattr(o, "__dict__", None)
+                if not isinstance(d, dict):
+                    continue
+                for k in sorted(d):
+                    v = d[k]
+                    mod = getattr(type(v), "__module__", "") or ""
+                    if not (mod.startswith("pytestarch") or mod.startswith("networkx")):
+                        continue
+                    if _real_id(v) in seen:
+                        continue
+                    seen.add(_real_id(v))
+                    out.append(v)
+                    nxt.append(v)
+            frontier = nxt
+        return out
+
+    def register(self, root):
+        if _real_id(root) in self.roots:
+            return
+        entries = []
+        for o in self._reachable(root):
+            if _real_id(o) in self.map:
+                continue  # shared with another registered root (e.g. a layer definition)
+            tn = type(o).__qualname__
+            if tn not in self.types:
+                self.types.append(tn)
+            fl = self.free.get(tn)
+            if fl:
+                slot = fl.pop(0)
+                self.reused += 1
+            else:
+                slot = self.next.get(tn, 0)
+                self.next[tn] = slot + 1
+            if slot >= 4000 or len(self.types) > 14:
+                continue
+            self.map[_real_id(o)] = 4096 * (1 + self.types.index(tn)) + slot
+            entries.append((o, tn, slot))  # the reference keeps the real id from being re-used
+        self.roots[_real_id(root)] = entries
+
+    def release(self, root):
+        for o, tn, slot in self.roots.pop(_real_id(root), []):
+            self.map.pop(_real_id(o), None)
+            fl = self.free.setdefault(tn, [])
+            fl.append(slot)
+            fl.sort()
+
+
+ids = IdSeam()
+
+
+class InjectedAbort(BaseException):
+    """F12: the simulator cancels a call at a chosen point (what a test timeout or Ctrl-C does
+    to a test function while session-scoped objects live on).  Not an `Exception`, so no
+    handler of the library may swallow it."""
+
+
+def call_with_abort(fn, k):
+    """Run fn(); raise InjectedAbort inside it when the k-th line event in a frame of the
+    library under test is reached.  Returns (value, lines_seen); the abort propagates."""
+    import sys
+
+    seen = [0]
+
+    def local(frame, event, arg):
+        if event == "line":
+            seen[0] += 1
+            if seen[0] == k:
+                where = f"{os.path.relpath(frame.f_code.co_filename, _lib_prefix)}:{frame.f_lineno}"
+                raise InjectedAbort(where)
+        return local
+
+    def glob(frame, event, arg):
+        if frame.f_code.co_filename.startswith(_lib_prefix):
+            return local
+        return None
+
+    sys.settrace(glob)
+    try:
+        return fn(), seen[0]
+    finally:
+        sys.settrace(None)
 
 
 def init(src_dir):
     """Import pytestarch from `src_dir` (the working tree under test) and nothing else."""
-    global _pa, _ModuleNameFilter
+    global _pa, _ModuleNameFilter, _lib_prefix
     import sys
 
     src_dir = os.path.abspath(src_dir)
@@ -36,6 +154,10 @@ def init(src_dir):
         raise RuntimeError(f"pytestarch imported from {where}, expected below {src_dir}")
     _pa = pytestarch
     _ModuleNameFilter = ModuleNameFilter
+    _lib_prefix = os.path.dirname(where) + os.sep
+    import builtins
+
+    builtins.id = ids.sim_id
     fsseam.install()
     warnings.showwarning = _warning_sink
     return where
@@ -100,6 +222,9 @@ class Session:
         self.snaps = {}  # digest -> snapshot
         self.log = []
         self.order_canary = []
+        self.aborts = {"apply": 0, "scan": 0, "missed": 0}
+        self.track_ids = plan.get("prop") == "C15"
+        self.tainted = set()  # rule objects whose evaluation the plan cancels (unspecified after)
 
     # -- argument decoding ---------------------------------------------------------
     def _arg(self, a, ns):
@@ -141,23 +266,36 @@ class Session:
             for rel, names in order.items():
                 table[os.path.join(self.scratch, rel)] = names
         fsseam.begin_scan(table, explicit=bool(order))
+
+        def request():
+            if cfg.get("via") == "modobj":
+                rm = types.ModuleType("root_module")
+                rm.__file__ = os.path.join(root, "__init__.py")
+                mm = types.ModuleType("module")
+                mm.__file__ = os.path.join(module, "__init__.py")
+                return _pa.get_evaluable_architecture_for_module_objects(rm, mm, **kw)
+            return _pa.get_evaluable_architecture(root, module, **kw)
+
         try:
             try:
-                if cfg.get("via") == "modobj":
-                    rm = types.ModuleType("root_module")
-                    rm.__file__ = os.path.join(root, "__init__.py")
-                    mm = types.ModuleType("module")
-                    mm.__file__ = os.path.join(module, "__init__.py")
-                    ev = _pa.get_evaluable_architecture_for_module_objects(rm, mm, **kw)
+                if op.get("abort_at"):
+                    ev, lines = call_with_abort(request, op["abort_at"])
+                    # the request finished before the chosen point: an ordinary scan
+                    self.aborts["missed"] += 1
                 else:
-                    ev = _pa.get_evaluable_architecture(root, module, **kw)
+                    ev = request()
             finally:
                 served = fsseam.end_scan()
+        except InjectedAbort as e:
+            self.aborts["scan"] += 1
+            return {"r": "ABORTED", "at": str(e)}
         except Exception as e:  # noqa: BLE001 - taxonomy: any Exception = no architecture
             return {"r": "exc", **_exc_info(e, self.scratch), "served": served}
         evs[op["ev"]] = ev
+        if self.track_ids:
+            ids.register(ev)
         d = self._snap(ev)
-        self.ev_snap[id(ev)] = d
+        self.ev_snap[_real_id(ev)] = d
         return {"r": "ok", "snap": d, "nmod": len(self.snaps[d]["modules"]),
                 "served": served}
 
@@ -169,6 +307,8 @@ class Session:
         except Exception as e:  # noqa: BLE001
             ns.dead.add(op["obj"])
             return {"r": "exc", **_exc_info(e, self.scratch)}
+        if self.track_ids:
+            ids.register(ns[op["obj"]])
         return {"r": "ok"}
 
     def do_call(self, op, ns):
@@ -185,6 +325,9 @@ class Session:
         if ret is not None and ret is not target:
             ns[op["obj"]] = ret
             res["newobj"] = True
+            if self.track_ids:
+                ids.release(target)
+                ids.register(ret)
         return res
 
     def do_apply(self, op, ns, evs):
@@ -195,19 +338,49 @@ class Session:
         ev = evs[op["ev"]]
         target = ns[op["obj"]]
         try:
-            ret = target.assert_applies(ev)
+            if op.get("abort_at"):
+                self.tainted.add(op["obj"])
+                ret, lines = call_with_abort(lambda: target.assert_applies(ev), op["abort_at"])
+                self.aborts["missed"] += 1
+            else:
+                ret = target.assert_applies(ev)
             res = {"r": "PASS"}
             if ret is not None:
                 res["ret"] = repr(ret)[:100]
+        except InjectedAbort as e:
+            self.aborts["apply"] += 1
+            res = {"r": "ABORTED", "at": str(e)}
         except AssertionError as e:
             res = {"r": "FAIL", "msg": str(e.args[0]) if e.args else "",
                    "cls": type(e).__name__}
         except Exception as e:  # noqa: BLE001
             res = {"r": "NOVERDICT", **_exc_info(e, self.scratch)}
         after = self._snap(ev)
-        res["ev_before"] = self.ev_snap[id(ev)]
+        res["ev_before"] = self.ev_snap[_real_id(ev)]
         res["ev_after"] = after
+        if op["obj"] in self.tainted:
+            res["tainted"] = True
         return res
+
+    def do_drop(self, op, ns, evs):
+        """F13: the session lets go of an object (a function-scoped fixture going out of scope);
+        a later object may live at the same address."""
+        import gc
+
+        if "ev" in op:
+            ev = evs.pop(op["ev"], None)
+            if ev is None:
+                return {"r": "skip"}
+            ids.release(ev)
+            self.ev_snap.pop(_real_id(ev), None)
+            del ev
+        else:
+            if op["obj"] not in ns:
+                return {"r": "skip"}
+            ids.release(ns[op["obj"]])
+            del ns[op["obj"]]
+        gc.collect()
+        return {"r": "ok"}
 
     def do_str(self, op, ns):
         if op["obj"] in ns.dead or op["obj"] not in ns:
@@ -249,6 +422,8 @@ class Session:
             return self.do_getitem(op, ns)
         if kind == "modules":
             return self.do_modules(op, evs)
+        if kind == "drop":
+            return self.do_drop(op, ns, evs)
         raise ValueError(f"unknown op {kind}")
 
     # -- phases ----------------------------------------------------------------------
@@ -269,12 +444,17 @@ class Session:
                 trace.append(self.step(op, ns, evs)["r"])
             res = self.do_apply({"op": "apply", "obj": entry["obj"], "ev": cfgid}, ns, evs)
             res["build"] = trace
+            for o in ns.values():
+                ids.release(o)
             out[entry["key"]] = res
             if res.get("ev_after") != res.get("ev_before") and cfgid in evs:
                 # keep the reference clean for later entries; the judge reports I2
+                ids.release(evs[cfgid])
                 del evs[cfgid]
                 scans.pop(cfgid, None)
                 self.do_scan({"op": "scan", "ev": cfgid, "cfg": cfgid}, evs)
+        for ev in evs.values():
+            ids.release(ev)
         return {"scans": scans, "outcomes": out}
 
     def run_session(self):
@@ -300,6 +480,7 @@ def execute(plan, scratch_base=None, run_tag="0"):
     scratch = os.path.join(base, f"PVS{os.getpid()}", str(run_tag))
     saved_filters = list(warnings.filters)
     fsseam.reset_counters()
+    ids.reset()
     fsseam.materialise(plan.get("world", {}), scratch)
     fsseam.set_root(scratch)
     _warning_count[0] = 0
@@ -310,6 +491,7 @@ def execute(plan, scratch_base=None, run_tag="0"):
     finally:
         fsseam.set_root(None)
         fsseam.cleanup(scratch)
+        ids.reset()
         warnings.filters[:] = saved_filters
     return {
         "log": sess.log,
@@ -317,4 +499,6 @@ def execute(plan, scratch_base=None, run_tag="0"):
         "snaps": sess.snaps,
         "fs": fsseam.counters(),
         "warnings": _warning_count[0],
+        # not part of any digest: addresses are not reproducible across processes
+        "probes": {"aborts": dict(sess.aborts), "evaluable_address_reused": ids.reused},
     }
